@@ -86,6 +86,36 @@ POLE_DIVISION = {}
 SATURATION = {}
 
 
+def singular_divisors(ret, horizontal):
+    """[(kind, text)] for divisors containing cos(D) (latitude-like second argument) or - for the horizontal pair - cos(E) (observer latitude) that
+    occur outside the arguments of atan2"""
+    out = []
+    cosD = T.call("cos", T.mul(T.sym("D"), D2R))
+    cosE = T.call("cos", T.mul(T.sym("E"), D2R))
+    seen = set()
+
+    def walk(t, in_atan2):
+        if not isinstance(t, tuple) or not t or (id(t), in_atan2) in seen:
+            return
+        seen.add((id(t), in_atan2))
+        if t[0] == "call" and t[1] == "atan2":
+            for x in t[2:]:
+                walk(x, True)
+            return
+        if t[0] == "pow" and t[2][0] == "num" and t[2][1] < 0 and not in_atan2:
+            for f in (t[1][1:] if t[1][0] == "mul" else (t[1],)):
+                if f == cosD:
+                    out.append(("latitude", "cos(latitude-like argument)"))
+                elif horizontal and f == cosE:
+                    out.append(("observer", "cos(observer latitude)"))
+                elif f[0] == "call" and f[1] == "cos" and len(f) == 3 and f[2][0] == "call" and f[2][1] == "asin":
+                    out.append(("result", "cos(asin(...)) = cosine of the computed latitude-like result"))
+        for x in t[1:]:
+            walk(x, in_atan2)
+    walk(ret, False)
+    return out
+
+
 def poly_eval(t, zv):
     from ..poly import eval_numeric
     return eval_numeric(t, {"NUM_ZSAT": float(zv)})
@@ -351,6 +381,20 @@ def run(repo, rep, tier):
                               "the latitude-like result is atan(Z / R) with R = %s = sqrt(1 - Z^2): R is 0 for the direction that maps onto the pole of the target system "
                               "(zenith / ecliptic or galactic pole), which the property includes - ZeroDivisionError there (atan2(Z, R) or asin(Z) have no such point)"
                               % POLE_DIVISION[q], obligation=True)
+            # a quotient whose divisor vanishes at a pole the property includes (latitude-like argument +-90, observer at a geographic
+            # pole), anywhere but inside an atan2 argument - where tan(x) = sin/cos is removable by scaling both arguments
+            try:
+                ret_ = eval_conv(repo, q)[0]
+                sd = singular_divisors(ret_, horizontal="horizontal" in q)
+            except AnalysisError:
+                sd = []
+            for what_, shown_ in sorted(set(sd))[:2]:
+                rep.violation("R-E4-ID", MOD + "." + q, "pole-division:" + what_,
+                              "the result divides by %s, which is zero for %s - inside the property's domain (every direction including the poles, observer latitude "
+                              "-90..90) - and the quotient does not sit in an atan2 argument: 0/0 or ZeroDivisionError there, loss of accuracy around it" %
+                              (shown_, "a direction at the pole of the input system (latitude-like argument +-90 deg)" if what_ == "latitude" else
+                               "an observer at a geographic pole (latitude +-90 deg)" if what_ == "observer" else
+                               "a direction that maps onto the pole of the target system"), obligation=True)
             if q in SATURATION:
                 rep.violation("R-E4-ID", MOD + "." + q, "saturation", "latitude-like result: %s - the pole of the target system in the opposite hemisphere is returned "
                               "(the property covers every direction including the poles)" % SATURATION[q], obligation=True)
